@@ -266,40 +266,7 @@ func checkC08(c *Ctx) {
 		"the WaitGroup tracking the reporting goroutine is added to but never waited on: Close returns while a periodic pass is still running (it reports and flushes after Close returned, and overlaps the final pass)")
 
 	// ---- O3 purge only from Close after the final report -----------------------------------------------
-	sites := c.staticCallSites()
-	nP := 0
-	okP := true
-	for _, cs := range sites[purge] {
-		nP++
-		caller := cs.Parent()
-		in := cs.(ssa.Instruction)
-		if caller != closeFn {
-			okP = false
-			c.bad("O3 purge-only-from-close", c.fnKey(caller), in.Pos(), "the purge of all scopes is reachable from "+caller.Name()+": a periodic pass that ends after the closed flag was set unregisters and clears every scope before Close's final report has visited them (their data is lost)", c.describe(in))
-			continue
-		}
-		if _, isDefer := in.(*ssa.Defer); isDefer {
-			okP = false
-			c.bad("O3 purge-only-from-close", c.fnKey(caller), in.Pos(), "the purge is deferred", c.describe(in))
-		}
-	}
-	// also through closures / method values
-	for _, fn := range c.AllFuncs {
-		instrsOf(fn, func(in ssa.Instruction) {
-			for _, op := range in.Operands(nil) {
-				if op != nil && *op == ssa.Value(purge) {
-					if ci, isCall := in.(ssa.CallInstruction); !isCall || staticCallee(ci) != purge {
-						okP = false
-						c.bad("O3 purge-only-from-close", c.fnKey(fn), in.Pos(), "the purge function escapes as a value", c.describe(in))
-					}
-				}
-			}
-		})
-	}
-	if okP {
-		c.ok("O3 purge-only-from-close", c.fnKey(purge), purge.Pos(), fmt.Sprintf("the purge is called from %d site(s), all in Close after the final report", nP))
-	}
-	c.floor("O3 purge-only-from-close", nP, 1)
+	c.checkPurgeOnlyFromClose("O3 purge-only-from-close")
 
 	// ---- O4 ticker loop -----------------------------------------------------------------------------------
 	if loop := c.fn("", "scope", "reportLoop"); loop != nil {
@@ -361,4 +328,52 @@ func checkC08(c *Ctx) {
 		c.missing("O4 ticker-loop", "tally.scope.reportLoopRun")
 	}
 	_ = types.Typ
+}
+
+// checkPurgeOnlyFromClose (C08 O3; also armed by C01): the purge of all scopes is called only from
+// scope.Close, not deferred, and never escapes as a function value.
+func (c *Ctx) checkPurgeOnlyFromClose(rule string) {
+	closeFn := c.fn("", "scope", "Close")
+	purge := c.fn("", "scopeRegistry", "purgeIfRootClosed")
+	rr := c.fn("", "scope", "reportRegistry")
+	if closeFn == nil || purge == nil || rr == nil {
+		c.missing(rule, "tally.scope.Close / scopeRegistry.purgeIfRootClosed / scope.reportRegistry")
+		return
+	}
+	// ---- O3 purge only from Close after the final report -----------------------------------------------
+	sites := c.staticCallSites()
+	nP := 0
+	okP := true
+	for _, cs := range sites[purge] {
+		nP++
+		caller := cs.Parent()
+		in := cs.(ssa.Instruction)
+		if caller != closeFn {
+			okP = false
+			c.bad(rule, c.fnKey(caller), in.Pos(), "the purge of all scopes is reachable from "+caller.Name()+": a periodic pass that ends after the closed flag was set unregisters and clears every scope before Close's final report has visited them (their data is lost)", c.describe(in))
+			continue
+		}
+		if _, isDefer := in.(*ssa.Defer); isDefer {
+			okP = false
+			c.bad(rule, c.fnKey(caller), in.Pos(), "the purge is deferred", c.describe(in))
+		}
+	}
+	// also through closures / method values
+	for _, fn := range c.AllFuncs {
+		instrsOf(fn, func(in ssa.Instruction) {
+			for _, op := range in.Operands(nil) {
+				if op != nil && *op == ssa.Value(purge) {
+					if ci, isCall := in.(ssa.CallInstruction); !isCall || staticCallee(ci) != purge {
+						okP = false
+						c.bad(rule, c.fnKey(fn), in.Pos(), "the purge function escapes as a value", c.describe(in))
+					}
+				}
+			}
+		})
+	}
+	if okP {
+		c.ok(rule, c.fnKey(purge), purge.Pos(), fmt.Sprintf("the purge is called from %d site(s), all in Close after the final report", nP))
+	}
+	c.floor(rule, nP, 1)
+
 }
